@@ -44,4 +44,13 @@ theorem addVote_nil_lastcommit_guard : Facts.cons_addVote_nil_lastcommit_guard =
 /-- the size limits the validators use -/
 theorem size_limits : PeerMsgs.maxVotesCount = 10000 ∧ PeerMsgs.maxBlockPartsCount = 1601 := by decide
 
+/-- lock scope in `ReceiveEnvelope`, vote case: the consensus read lock is released (plain
+`RUnlock`, no `defer` anywhere in the function) BEFORE the blocking hand-off to `peerMsgQueue`;
+holding it across the send deadlocks readers against `receiveRoutine`'s write lock once the queue
+is full (stream: `flood`, fingerprint consensus.reactor.wedged-by-flood) -/
+theorem receive_vote_lock_scope :
+    Facts.cons_receive_vote_unlock_before_queue = true ∧
+    Facts.cons_receive_vote_deferred_runlock = false ∧
+    Facts.cons_receive_any_deferred_unlock = false := by decide
+
 end Tmv.Expect.C17
